@@ -16,7 +16,12 @@ cleanup() { git -C /repo worktree remove --force "$S/repo" >/dev/null 2>&1; rm -
 if ! git -C "$S/repo" apply "$PATCH" 2>/dev/null; then
   if ! (cd "$S/repo" && patch -p1 --fuzz=3 -s < "$PATCH" >/dev/null 2>&1); then echo "MATRIX $NAME: patch does not apply"; cleanup; exit 2; fi
 fi
-for f in harness corpus tools check known_findings.json properties.jsonl; do cp -a /verif/$f "$S/verif/"; done
+# the committed harness (HEAD), so edits in progress in /verif cannot break a sensitivity run; MX_WORKTREE=1 uses the working tree
+if [ -n "${MX_WORKTREE:-}" ]; then
+  for f in harness corpus tools check known_findings.json properties.jsonl; do cp -a /verif/$f "$S/verif/"; done
+else
+  git -C /verif archive HEAD harness corpus tools check known_findings.json properties.jsonl | tar -x -C "$S/verif"
+fi
 mkdir -p "$S/verif/evidence"
 sed -i "s#\"/repo#\"$S/repo#g" "$S/verif/harness/Cargo.toml"
 sed -i "s#/verif/build/harness#$S/verif/build/harness#" "$S/verif/harness/.cargo/config.toml"
